@@ -373,10 +373,10 @@ impl Check for SchedCheck {
 	fn runs(&self, tier: Tier) -> u64 {
 		let slots = (n_methods() + n_inds()) as u64;
 		match (self.id, tier) {
-			("C09", Tier::Quick) => slots * 1_500,
-			("C09", Tier::Thorough) => slots * 25_000,
-			(_, Tier::Quick) => slots * 100,
-			(_, Tier::Thorough) => slots * 3_000,
+			("C09", Tier::Quick) => slots * 4_000,
+			("C09", Tier::Thorough) => slots * 60_000,
+			(_, Tier::Quick) => slots * 300,
+			(_, Tier::Thorough) => slots * 8_000,
 		}
 	}
 	fn generate(&self, root: &Rng, i: u64, tier: Tier) -> MCase {
